@@ -77,9 +77,7 @@ import (
 // changed (and aliased). Smallest replay: a={65236..65535}, b={0..4199} (both NewBitmap32), a.Xor(b):
 // b.Cardinality() becomes 4500, b.Contains(65300) true. Receivers bitmap32 / bitmap32With /
 // threadSafe(bitmap32); 64 bit is not affected (roaring64 uses the non in-place container xor).
-var knownDeviations = []string{
-	`^dense uint32 receiver=(bitmap32|bitmap32With|threadSafe\(bitmap32\))\{\[65236\.\.65835\][^}]*\} \.Xor\( operand=bitmap32(With)?\{\[0\.\.4199\][^}]*\} \) :: operand afterwards \(must be unchanged\)`,
-}
+var knownDeviations = []string{} // classes come from /verif/known_findings.json through VERIF_KNOWN (substrings)
 
 const vdHangAfter = 20 * time.Second
 
@@ -280,6 +278,7 @@ type vdState struct {
 	failures []string
 	nFail    int
 	nKnown   int
+	knownHits map[string]int
 	cases    int64
 	known    []string         // substrings (VERIF_KNOWN)
 	knownRe  []*regexp.Regexp // knownDeviations
@@ -302,6 +301,10 @@ func (s *vdState) fail(caseDesc, observed string) {
 	for _, k := range s.known {
 		if k != "" && strings.Contains(full, k) {
 			s.nKnown++
+			if s.knownHits == nil {
+				s.knownHits = map[string]int{}
+			}
+			s.knownHits[k]++
 			return
 		}
 	}
@@ -1041,7 +1044,7 @@ wait:
 	res := map[string]any{
 		"name":  "duplex",
 		"bound": fmt.Sprintf("element types uint64 and uint32; implementations {bitmap, bitmapWith, threadSafe(bitmap)} as receiver and those plus a foreign map-backed Duplex as operand (receiver != operand object); two sub-universes of %d boundary values each (smallest %d and largest %d of {0,1,2,65535,65536,2^32,2^63,MaxUint64} / {0,1,2,65535,65536,MaxUint32-1,MaxUint32}): all pairs of subsets x all impl pairs x {Or,And,AndNot,Xor}; all unary sequences of length <= 3 over {Add,Remove,CheckedAdd,Clear} from every subset; Add(many, duplicates); Each with every stop position; Clone independence under every mutation; dense blocks (bitmap container, crossing 2^16 and 2^32); plus NON-exhaustive schedule sampling: 50 rounds x {2,8} concurrent CheckedAdd writers + 2 readers on thread-safe wrappers and their clones", k, k, k),
-		"cases": cases, "exhaustive": exhaustive && !hung, "failures": failures, "failure_count": nFail, "known_deviations": nKnown, "seed": seed,
+		"cases": cases, "exhaustive": exhaustive && !hung, "failures": failures, "failure_count": nFail, "known_deviations": nKnown, "known_deviation_hits": st.knownHits, "seed": seed,
 	}
 	out, _ := json.Marshal(res)
 	fmt.Println("BOUNDED-RESULT " + string(out))
